@@ -217,9 +217,18 @@ def struct_children(g, n_cp=None):
             ghost_only.append(f"{base}.{seg}" if base else seg)
         paths = paths + ghost_only
 
+    # in a tuple struct a nested struct may still be field-named (`as {}`): every member under it then names its field
+    named_children = set()
+    if shape == "tuple" and g.chance(0.35):
+        named_children = {p_ for p_ in paths if g.chance(0.6)}
+        for f in it.fields:
+            ch = [a for a in f.attrs if a.kind == "child"]
+            if ch and any(a.f["path"] in named_children for a in ch) and not any(a.kind == "map" and a.f.get("member") is not None and a.f.get("container") is None and a.name == "map" for a in f.attrs):
+                f.attrs = [a for a in f.attrs if a.kind != "map"] + [Instr("map", "map", container=None, member=f"m{g.mark()}", action=None)]
+
     def cp_entries():
         # generic arguments in turbofish form: the path is also used in expression position (README 'Generics' does the same for the counterpart)
-        return [dict(path=p, ty=f"T{g.mark()}" + r.choice(["", "", "", "::<i32>", "::<u8>", "::<'x, u8>"]) if g.chance(0.85) else f"m::T{g.mark()}", hint=None) for p in paths]
+        return [dict(path=p, ty=f"T{g.mark()}" + r.choice(["", "", "", "::<i32>", "::<u8>", "::<'x, u8>"]) if g.chance(0.85) else f"m::T{g.mark()}", hint=("{}" if p in named_children else None)) for p in paths]
     if dedicated:
         for c in cps[:2]:
             it.attrs.append(Instr("child_parents", "child_parents", container=c, entries=cp_entries()))
@@ -257,6 +266,15 @@ def struct_parents(g):
                 f.attrs.append(Instr("parent", "parent", container=None, fields=None))
             else:
                 def plist(depth):
+                    if depth == 0 and g.chance(0.2):
+                        # a tuple-typed parent: members addressed by index, each naming the counterpart's field, in ascending order
+                        xs = []
+                        for j in range(r.randint(1, 3)):
+                            k = g.mark()
+                            nm_ = r.choice(['map', 'map', 'from] [into', 'map_owned] [map_ref'])
+                            arg = f"m{k}" if g.chance(0.7) else f"m{k}, ~.k{k}()"
+                            xs.append("".join(f"[{n_.strip('[] ')}({arg})] " for n_ in nm_.split("] [")) + str(j))
+                        return ", ".join(xs)
                     xs = []
                     for _ in range(r.randint(1, 3)):
                         k = g.mark()
